@@ -65,6 +65,30 @@ pub fn fragment(id: u16, proto: u8, src: [u8; 4], dst: [u8; 4], payload: &[u8], 
         .collect()
 }
 
+/// The same IPv4 packet with `n` octets (multiple of 4, <= 40) of options inserted after the
+/// fixed header: NOP (1) octets, closed by End-of-Option-List (0) in the last one (RFC 791);
+/// IHL, total length and header checksum adjusted.
+pub fn with_options(pkt: &[u8], n: usize) -> Vec<u8> {
+    assert!(n % 4 == 0 && n <= 40 && pkt.len() >= 20 && pkt[0] == 0x45);
+    let mut h = pkt[..20].to_vec();
+    h[0] = 0x40 | (5 + n / 4) as u8;
+    let total = pkt.len() + n;
+    h[2] = (total >> 8) as u8;
+    h[3] = total as u8;
+    h[10] = 0;
+    h[11] = 0;
+    let mut o = vec![1u8; n];
+    if n > 0 {
+        o[n - 1] = 0;
+    }
+    h.extend_from_slice(&o);
+    let c = cksum_field(&[&h]);
+    h[10] = (c >> 8) as u8;
+    h[11] = c as u8;
+    h.extend_from_slice(&pkt[20..]);
+    h
+}
+
 /// cut `total` bytes into pieces of `piece` bytes (multiple of 8), last piece = remainder
 pub fn even_cuts(total: usize, piece: usize) -> Vec<(usize, usize)> {
     assert!(piece % 8 == 0 && piece > 0);
